@@ -518,14 +518,38 @@ def produce(fa, req):
     res["proj"] = proj
     if any(p["t"] == "list" for p in proj["params"]) or any(n["k"] in ("list", "item", "len") or n["t"].startswith("list") for n in proj["nodes"]):
         return dict(req=req, status="build_skip", why="list-valued program")
-    renamed = [str(a.operands[0]) for a in g.operands[1:-1] if a.kind == "symbol" and a.ref != str(a.operands[0])]
     res["wild"] = wild_of(fa, tname)
     prog = parse_stablehlo(text) if tname == "stablehlo" else parse_xla(text)
     res["prog"] = dict(params=prog["params"], stmts=prog["stmts"], rows=prog["rows"], ret=prog["ret"])
     res["fname"] = prog["fname"]
-    if renamed or [p["name"] for p in prog["params"]] != [p["name"] for p in proj["params"]]:
+    if not align_parameters(res["prog"], [p["name"] for p in proj["params"]]):
         res["status"] = "param_mismatch"
     return res
+
+
+def align_parameters(prog, graph_names):
+    """Parameters correspond by POSITION: a text whose parameters are named differently from the graph's arguments is
+    alpha-renamed (parameter list and every occurrence) so that the machine, which identifies a parameter with the
+    symbol node of the same name, sees the correspondence.  False when there is no consistent renaming (different
+    number of parameters, or a graph name already used for something else in the text)."""
+    text_names = [p["name"] for p in prog["params"]]
+    if text_names == graph_names:
+        return True
+    if len(text_names) != len(graph_names) or len(set(text_names)) != len(text_names):
+        return False
+    ren = {t: g for t, g in zip(text_names, graph_names) if t != g}
+    used = {r["s"] for r in prog["rows"] if r["o"] == "var"} | {s["var"] for s in prog["stmts"] if s.get("var")}
+    if any(g in used and g not in ren for g in ren.values()):
+        return False
+    for p in prog["params"]:
+        p["name"] = ren.get(p["name"], p["name"])
+    for r in prog["rows"]:
+        if r["o"] == "var":
+            r["s"] = ren.get(r["s"], r["s"])
+    for s in prog["stmts"]:
+        if s.get("var") in ren:
+            s["var"] = ren[s["var"]]
+    return True
 
 
 _FA = None
@@ -607,8 +631,16 @@ def static_keys(r, triples):
     pnames = {p["name"] for p in r["proj"]["params"]}
     free = {pre + n["n"] for n in r["proj"]["nodes"] if n["k"] == "symbol" and n["n"] not in pnames for pre in ("", "symbol_")}
     out = {}
-    shared = any(t[0] == "distinct_share" for t in triples)
     failing = {t[1] for t in triples}
+    tainted = {t[1] for t in triples if t[0] == "distinct_share"}
+    if tainted:
+        defs = {}
+        for st in r["prog"]["stmts"]:
+            if st["op"] == "assign":
+                defs.setdefault(st["var"], []).append(st["t"])
+        for k, q in enumerate(rows, 1):       # children come before parents, definitions before uses
+            if any(c in tainted for c in q["a"]) or (q["o"] == "var" and any(t in tainted for t in defs.get(q["s"], ()))):
+                tainted.add(k)
     for clause, row, what in triples:
         o = rows[row - 1] if row else None
         if clause in ("constant_value", "constant_type", "operator") and o and pycomplex and (
@@ -630,9 +662,9 @@ def static_keys(r, triples):
                                                        "var" if row not in likes else "operand a constant is attached to")
         elif clause in ("single_assignment", "declared_type"):
             detail = "param" if what in [p["name"] for p in r["prog"]["params"]] else ("return" if what == "return" else "var")
-        elif clause in ("operator", "operand_order") and o and shared and any(q["o"] == o["o"] and k + 1 not in failing for k, q in enumerate(rows)):
-            # the operator is spelt as elsewhere in the same text where it is accepted: the term sits above a variable that two
-            # nodes share (reported as distinct_share) and denotes the wrong one of them
+        elif clause == "operator" and o and row in tainted and any(q["o"] == o["o"] and k + 1 not in failing for k, q in enumerate(rows)):
+            # the operator is spelt as elsewhere in the same text where it is accepted, and the term contains (directly or through
+            # assigned variables) a term reported as distinct_share: it sits above a variable that two nodes share
             detail = "above a shared variable"
         else:
             detail = str(what)
@@ -661,6 +693,14 @@ def collect(chk, order, res):
                                      % (describe(byid[eid]["req"]), d["lit_conv"][1]))
         if "warned_and_unbound" in d:
             warned_unbound += 1
+        if "oversize" in d:
+            # only the text-level discipline was judged: never silently
+            r = byid[eid]
+            if not any(e == eid for e, _ in res["fails"]):
+                raise tlc.MachineryError("%s: the emitted text has %s term rows for a graph of %d nodes and is too large to validate"
+                                         % (describe(r["req"]), d["oversize"][1], len(r["proj"]["nodes"])))
+            chk.note("%s: text of %s term rows for a graph of %d nodes: only single assignment was judged"
+                     % (describe(r["req"]), d["oversize"][1], len(r["proj"]["nodes"])))
     for eid, clauses in res["fails"]:
         r = byid[eid]
         d = notes.get(eid, {})
